@@ -38,7 +38,7 @@ Definition zlen {A} (l : list A) : Z := Z.of_nat (length l).
 
 (* l[i] for a Go int i: panics outside [0, len) *)
 Definition zidx {A} (l : list A) (i : Z) : outcome A :=
-  if i <? 0 then Panic
+  if (i <? 0) || (zlen l <=? i) then Panic
   else match nth_error l (Z.to_nat i) with Some a => Ok a | None => Panic end.
 
 Fixpoint upd {A} (l : list A) (i : nat) (v : A) : list A :=
